@@ -681,11 +681,15 @@ func (w *WAL) AppendBatch(entries []*Entry) (uint64, error) {
 	// Start sequence number for the batch
 	startSeqNum := w.nextSequence
 
-	// Calculate total size needed for all entries to ensure atomic writing
+	// Validate every entry and calculate the total size needed for all of them
+	// before the first record is written: nothing below may fail halfway and
+	// leave part of the batch in the log
 	totalSize := 0
-	for _, entry := range entries {
-		// Calculate size for each entry: Header(7) + Payload
+	for i, entry := range entries {
 		entryType := entry.Type
+		if entryType != OpTypePut && entryType != OpTypeDelete && entryType != OpTypeMerge {
+			return 0, fmt.Errorf("entry %d: %w", i, ErrInvalidOpType)
+		}
 
 		// Payload size: type(1) + seq(8) + keylen(4) + key + [valuelen(4) + value]
 		payloadSize := 1 + 8 + 4 + len(entry.Key)
@@ -693,7 +697,10 @@ func (w *WAL) AppendBatch(entries []*Entry) (uint64, error) {
 			payloadSize += 4 + len(entry.Value)
 		}
 
-		totalSize += HeaderSize + payloadSize
+		// One record header per record. An entry larger than a record is split
+		// into fragments: a first fragment plus at most payloadSize/MaxRecordSize+1
+		// more records (upper bound)
+		totalSize += HeaderSize*(payloadSize/MaxRecordSize+2) + payloadSize
 	}
 
 	// Ensure writer buffer is large enough for atomic write
@@ -717,8 +724,20 @@ func (w *WAL) AppendBatch(entries []*Entry) (uint64, error) {
 	// Now write all entries atomically (no intermediate flushes)
 	// All entries in the batch share the same sequence number
 	for i, entry := range entries {
-		// Write the entry using its original type and the same sequence number
-		if err := w.writeRecord(RecordTypeFull, entry.Type, startSeqNum, entry.Key, entry.Value); err != nil {
+		entrySize := 1 + 8 + 4 + len(entry.Key)
+		if entry.Type != OpTypeDelete {
+			entrySize += 4 + len(entry.Value)
+		}
+
+		// Write the entry using its original type and the same sequence number,
+		// split into several records if it does not fit in one (as Append does)
+		var err error
+		if entrySize <= MaxRecordSize {
+			err = w.writeRecord(RecordTypeFull, entry.Type, startSeqNum, entry.Key, entry.Value)
+		} else {
+			err = w.writeFragmentedRecord(entry.Type, startSeqNum, entry.Key, entry.Value)
+		}
+		if err != nil {
 			return 0, fmt.Errorf("failed to write entry %d: %w", i, err)
 		}
 	}
@@ -769,11 +788,15 @@ func (w *WAL) AppendBatchWithSequence(entries []*Entry, startSequence uint64) (u
 	// Use the provided sequence number directly
 	startSeqNum := startSequence
 
-	// Calculate total size needed for all entries to ensure atomic writing
+	// Validate every entry and calculate the total size needed for all of them
+	// before the first record is written: nothing below may fail halfway and
+	// leave part of the batch in the log
 	totalSize := 0
-	for _, entry := range entries {
-		// Calculate size for each entry: Header(7) + Payload
+	for i, entry := range entries {
 		entryType := entry.Type
+		if entryType != OpTypePut && entryType != OpTypeDelete && entryType != OpTypeMerge {
+			return 0, fmt.Errorf("entry %d: %w", i, ErrInvalidOpType)
+		}
 
 		// Payload size: type(1) + seq(8) + keylen(4) + key + [valuelen(4) + value]
 		payloadSize := 1 + 8 + 4 + len(entry.Key)
@@ -781,7 +804,10 @@ func (w *WAL) AppendBatchWithSequence(entries []*Entry, startSequence uint64) (u
 			payloadSize += 4 + len(entry.Value)
 		}
 
-		totalSize += HeaderSize + payloadSize
+		// One record header per record. An entry larger than a record is split
+		// into fragments: a first fragment plus at most payloadSize/MaxRecordSize+1
+		// more records (upper bound)
+		totalSize += HeaderSize*(payloadSize/MaxRecordSize+2) + payloadSize
 	}
 
 	// Ensure writer buffer is large enough for atomic write
@@ -805,8 +831,20 @@ func (w *WAL) AppendBatchWithSequence(entries []*Entry, startSequence uint64) (u
 	// Now write all entries atomically (no intermediate flushes)
 	// All entries in the batch share the same sequence number
 	for i, entry := range entries {
-		// Write the entry using its original type and the same sequence number
-		if err := w.writeRecord(RecordTypeFull, entry.Type, startSeqNum, entry.Key, entry.Value); err != nil {
+		entrySize := 1 + 8 + 4 + len(entry.Key)
+		if entry.Type != OpTypeDelete {
+			entrySize += 4 + len(entry.Value)
+		}
+
+		// Write the entry using its original type and the same sequence number,
+		// split into several records if it does not fit in one (as Append does)
+		var err error
+		if entrySize <= MaxRecordSize {
+			err = w.writeRecord(RecordTypeFull, entry.Type, startSeqNum, entry.Key, entry.Value)
+		} else {
+			err = w.writeFragmentedRecord(entry.Type, startSeqNum, entry.Key, entry.Value)
+		}
+		if err != nil {
 			return 0, fmt.Errorf("failed to write entry %d: %w", i, err)
 		}
 	}
